@@ -821,12 +821,43 @@ class Normaliser:
         body = self._mk("Block", line, s=body_of(var))
         return self._mk("For", line, init=init, c=cond, inc=inc, body=body, synthetic=True)
 
+    def _range_ctor(self, fn, s):
+        """`std::vector<T> x(first, last);` over a random-access range  ->  `std::vector<T> x(count); for(k < count) x[k] = src[k];`"""
+        if s.get("k") != "Decl" or len(s.get("vars", [])) != 1:
+            return None
+        v = s["vars"][0]
+        init = strip(v.get("init"))
+        for _ in range(3):
+            if init is not None and init.get("k") in ("Construct", "TempObj") and len(init.get("a", [])) == 1 and "vector" in (init.get("callee") or "") \
+                    and strip(init["a"][0]).get("k") in ("Construct", "TempObj"):
+                init = strip(init["a"][0])
+        if init is None or init.get("k") not in ("Construct", "TempObj") or not (init.get("ccls") or "").startswith("std::vector") or (init.get("pn") or [])[:2] != ["__first", "__last"]:
+            return None
+        line = s.get("l")
+        T = self._index_type(fn)
+        args = init.get("a", [])
+        src = self._pos(fn, args[0])
+        cnt = self._count(fn, args[0], args[1], line, T) if src is not None and src[0] in ("vec", "ptr") else None
+        if src is None or cnt is None:
+            return None
+        cls = init.get("ccls")
+        nv = dict(v)
+        nv["init"] = self._mk("Construct", line, callee="%s::vector" % cls, cfull="%s::vector" % cls, ccls=cls, pn=["__n", "__a"], pt=[T, None], a=[self._clone(cnt)], t=v.get("t"))
+        nv["i"] = self._nid()
+        dst = ("vec", self._ref(nv, line), None, cls)
+        loop = self._index_loop(fn, line, cnt, lambda var: [self._mk("Assign", line, op="=", lhs=self._elem(fn, dst, self._ref(var, line), line, T),
+                                                                       rhs=self._elem(fn, src, self._ref(var, line), line, T), t=T)])
+        self.note(fn, "range construction of %s at line %s read as allocation + copy loop" % (v.get("n"), line))
+        return [self._mk("Decl", line, vars=[nv]), loop]
+
     def _desugar(self, fn, s):
         e = strip(s)
         if e is None:
             return None
         k = e.get("k")
         line = e.get("l")
+        if k == "Decl":
+            return self._range_ctor(fn, e)
         callee = e.get("callee") or ""
         args = e.get("a", [])
         T = self._index_type(fn)
